@@ -19,7 +19,7 @@ Ltac2 Set C17_whnf.is_blocked := fun c =>
   Ltac2.List.exist (Ltac2.Constr.equal c)
     ['@bind; 'Rltb; 'Rleb; 'Reqb; 'Rfloor; 'Rtrunc; 'Rround; 'is_int; 'Rfmod; 'Rround_nd;
      'Rlit; 'atan2; 'Rpow; 'pow10; 'Rabs; 'sqrt; 'sin; 'cos; 'tan; 'asin; 'acos; 'atan;
-     'exp; 'ln; 'Rpower; 'powerRZ; 'IZR; 'PI; '@py_getitem; '@math_fsum; 'fl; 'idxs; '@enum_from; '@zip2].
+     'exp; 'ln; 'Rpower; 'powerRZ; 'IZR; 'PI; '@py_getitem; '@math_fsum; 'fl; 'idxs; '@enum_from].
 
 Definition py_getitem_body := Eval unfold py_getitem in @py_getitem.
 Lemma py_getitem_unfold {F} (O : FloatOps F) v i : py_getitem O v i = py_getitem_body F O v i.
@@ -31,7 +31,6 @@ Ltac is_atom_list l :=
           | fl _ => idtac
           | idxs _ _ => idtac
           | enum_from _ (fl _) => idtac
-          | zip2 (fl _) (fl _) => idtac
           | app ?a _ => is_atom_list a
           end ].
 
@@ -207,14 +206,21 @@ Proof.
   apply (fsum_go l []).
 Qed.
 
+Definition math_fsum_body := Eval unfold math_fsum in @math_fsum.
+Lemma math_fsum_unfold {F} (O : FloatOps F) v : math_fsum O v = math_fsum_body F O v.
+Proof. reflexivity. Qed.
+
 Ltac no_idx := fail.
 (* default hook: math.fsum of a float list (argument evaluated first by the caller's runner) *)
 Ltac fsum_hook run s :=
   lazymatch s with
   | math_fsum ?O ?a =>
-      tryif is_canon2 a then rewrite math_fsum_floats
+      tryif is_canon2 a then first [ rewrite math_fsum_floats | rewrite (math_fsum_unfold O a); unfold math_fsum_body ]
       else (let H := fresh "Hev" in eassert (H : a = _) by (run; py_canon_refl2); rewrite H; clear H)
   end.
 Ltac idx_floats :=
   rewrite getitem_floats by (first [assumption | rewrite ?fl_length; cbn [length]; lia]); cbn [nth].
 Ltac pyrunL := pyrun2 pylra idx_floats ltac:(fun s => fsum_hook ltac:(pyrunL) s).
+
+(* concrete data (literal lists): same evaluator, cheap decisions *)
+Ltac pyrunC := pyrun2 pylra_fast no_idx ltac:(fun s => fsum_hook ltac:(pyrunC) s).
